@@ -375,3 +375,35 @@ Proof.
 Qed.
 
 #[export] Hint Rewrite zlen_column : zlen.
+
+(* ---------- cumulative sums, shifts, scalings, column sums ---------- *)
+Lemma zlen_cumsum_int : forall d a, zlen (cumsum_int a d) = zlen d.
+Proof.
+  unfold zlen. induction d as [|x r IH]; intros a; simpl; [reflexivity|].
+  specialize (IH (a + to_int x)). lia.
+Qed.
+
+Lemma nthZ_cumsum_int : forall d a k, 0 <= k < zlen d ->
+  nthZ (cumsum_int a d) k = VInt (a + psum d (k + 1)).
+Proof.
+  induction d as [|x r IH]; intros a k H.
+  - unfold zlen in H; simpl in H; lia.
+  - rewrite zlen_cons in H. simpl cumsum_int. destruct (Z.eq_dec k 0) as [->|N].
+    + rewrite nthZ_cons_0. f_equal. unfold psum. rewrite pyslice_0 by (rewrite zlen_cons; pose proof (zlen_nonneg r); lia).
+      change (Z.to_nat (0 + 1)) with 1%nat. simpl firstn. rewrite sum_int_cons, sum_int_nil. lia.
+    + rewrite nthZ_cons_S by lia. rewrite IH by lia. f_equal.
+      unfold psum. rewrite !pyslice_0 by (rewrite ?zlen_cons; lia).
+      replace (Z.to_nat (k + 1)) with (S (Z.to_nat (k - 1 + 1))) by lia.
+      simpl firstn. rewrite sum_int_cons. lia.
+Qed.
+
+Lemma zlen_shift_left : forall d, zlen (shift_left d) = zlen d.
+Proof.
+  intros [|x r]; [reflexivity|]. unfold shift_left, zlen. rewrite app_length. simpl. lia.
+Qed.
+Lemma zlen_scale_cells : forall dt v d, zlen (scale_cells dt v d) = zlen d.
+Proof. intros; unfold scale_cells; apply zlen_map. Qed.
+Lemma zlen_col_sums : forall dt n c d, zlen (col_sums dt n c d) = Z.max 0 c.
+Proof. intros. unfold col_sums, zlen. rewrite map_length, zrange_length. lia. Qed.
+
+#[export] Hint Rewrite zlen_cumsum_int zlen_shift_left zlen_scale_cells zlen_col_sums : zlen.
